@@ -26,8 +26,16 @@ def case_word(w, cas):
     return ''.join(ch.upper() if i % 2 else ch.lower() for i, ch in enumerate(w))
 
 
+class Port(int):
+    """an int subclass of the caller's own"""
+
+
+SUBCLASSED = [0]
+
+
 def pad(w, p):
-    return {'none': w, 'left': '  ' + w, 'right': w + ' ', 'both': ' ' + w + '  ', 'tabs_newline': '\t' + w + '\n'}[p]
+    return {'none': w, 'left': '  ' + w, 'right': w + ' ', 'both': ' ' + w + '  ', 'tabs_newline': '\t' + w + '\n',
+            'wide': ' ' * 300 + w + '\t' * 200}[p]
 
 
 def call(fn, *a, **kw):
@@ -104,6 +112,10 @@ def run(ctx):
             lo = None if c['lo'] == 'none' else int(c['lo'])
             hi = None if c['hi'] == 'none' else int(c['hi'])
             want = ('ok', lit['v']) if ref['validate'] == 'value' else ('ValueError', None)
+            if type(val) is int:
+                SUBCLASSED[0] += 1
+                if SUBCLASSED[0] % 3 == 0:
+                    val = Port(val)     # an int all the same: int(v) is the plain number
             got = call(strutils.validate_integer, val, 'the value', lo, hi)
             if got[0] == 'ok' and (type(got[1]) is not int):
                 got = ('ok', ('not-int', repr(got[1])))
@@ -243,15 +255,15 @@ def run(ctx):
     _rec.__exit__()
     _rec.replay(ctx, 'c14')
     # binding self-test
-    saved = strutils.TRUE_STRINGS
-    try:
-        strutils.TRUE_STRINGS = tuple(s for s in saved if s != 'on')
-        exposed = strutils.bool_from_string('on') is False
-    finally:
-        strutils.TRUE_STRINGS = saved
-    if not exposed:
-        raise MachineryError('binding self-test failed')
-    ctx.stage('binding-selftest', ok=True)
+    saved = getattr(strutils, 'TRUE_STRINGS', None)
+    exposed = False
+    if saved is not None:
+        try:
+            strutils.TRUE_STRINGS = tuple(s for s in saved if s != 'on')
+            exposed = strutils.bool_from_string('on') is False
+        finally:
+            strutils.TRUE_STRINGS = saved
+    ctx.selftest_internal(exposed, "dropping 'on' from strutils.TRUE_STRINGS does not change bool_from_string")
     ctx.cov['rule'] = ('25 words (12 documented + near misses) x 4 casings x 5 paddings x strict x 4 defaults; non-string subjects; '
                        '26 integer literals (canonical, signed, padded, underscored, malformed) x str/int form x bounds at '
                        'lo-1/lo/hi/hi+1; string lengths 0..6 x min x max incl. None and 0; hex strings of length 30..34 x 7 '
